@@ -13,7 +13,9 @@ Init == i = 0 /\ bad = <<>> /\ (N > 0 \/ JsonSerialize(IOEnv.OUT_FILE, <<>>))
 Next ==
   /\ i < N
   /\ i' = i + 1
-  /\ bad' = LET j == IF Cases[i + 1].setup # "" THEN {} ELSE Judge(Cases[i + 1])
+  /\ bad' = LET j == IF Cases[i + 1].setup # "" THEN {}
+                      ELSE Judge(Cases[i + 1]) \cup
+                           (IF Cases[i + 1].exc = "" /\ ~AnchorsOk(Cases[i + 1]) THEN {"C23.anchor"} ELSE {})
             IN IF j = {} THEN bad ELSE Append(bad, [i |-> i + 1, c |-> j])
   /\ (i' < N \/ JsonSerialize(IOEnv.OUT_FILE, bad'))
 Spec == Init /\ [][Next]_<<i, bad>>
